@@ -80,11 +80,15 @@ pub fn dec_call(
     } else {
         Vec::new()
     };
-    tr.ev(json!({"ev": "dec", "obj": obj, "in_len": input.len(), "out_len": out.len(), "out_pos": out_pos,
+    let mut dev = json!({"ev": "dec", "obj": obj, "in_len": input.len(), "out_len": out.len(), "out_pos": out_pos,
         "out_max": if out_max == usize::MAX { -1i64 } else { out_max as i64 }, "flags": flags,
         "more": flags & TINFL_FLAG_HAS_MORE_INPUT != 0, "wrap": wrap,
         "status": st_name(st), "consumed": used, "written": w, "data": bytes(&data), "outside_ok": outside_ok,
-        "st": r.verif_state().0}));
+        "st": r.verif_state().0});
+    if let Some(a) = r.adler32() {
+        dev["adler"] = json!([a & 0xffff, a >> 16]);
+    }
+    tr.ev(dev);
     Some((st, used, w))
 }
 
